@@ -19,6 +19,7 @@ META = {
 META['level_text'] += ' R3: the structural clauses of the conversion pipeline that a plain saved mapping passes through on reload hold (one mapping per source mapping, appended in order, keys/repeat/absorbing carried over: C13-S2..S6 re-run).'
 META["level_note"] = "Trusted: serde_json's Serializer/Deserializer for Value (arrays, strings, numbers), rustc MIR/HIR, tmfacts. Not decided: that convert(parse(x)) is the identity on alias-free input beyond the per-field agreement and the pipeline clauses shown here (same limit as C13)."
 META["technique"] += '; re-run of the conversion-pipeline clauses (C13-S2..S6)'
+META['level_text'] += ' R1 also: the saved file is opened with write+truncate (or File::create), never append: it holds exactly what was serialised now.'
 # --- end additions
 
 PARSE_KEY = "layout_parsing_formatting::parse_key_code"
@@ -318,6 +319,9 @@ def run(ctx):
     ok_ser = len(sers) == 1 and "keys::Layout" in sers[0][2]["callee"].get("args", "")
     ck.ob("C15-R1", us, "serialises-keys::Layout-with-serde_json", ok_ser,
           detail=sers[0][2]["callee"].get("args", "")[:120] if sers else "no serde_json::to_writer* call")
+    from .c17 import file_replaced_whole
+    okf, whyf = file_replaced_whole(ctx, wb)
+    ck.ob("C15-R1", us, "the-saved-file-is-replaced,not-overlaid(truncate+write,no-append)", okf, detail=whyf)
     from ..rustlit import format_template_of
     tmpl = format_template_of(ctx.body("udev_utils::build_service_text"))
     ck.ob("C15-R1", "udev_utils::build_service_text", "service-loads---layout-file-/etc/totalmapper.json",
